@@ -116,6 +116,9 @@ fn parse_act(a: &str) -> Result<Act, String> {
     }
 }
 
+/// first transaction id of the session (`tx=<n>` token right after the framing letter; default 0)
+static START_TX: std::sync::atomic::AtomicU32 = std::sync::atomic::AtomicU32::new(0);
+
 fn parse_line(line: &str) -> Result<(Framing, Vec<Call>), String> {
     let mut tokens = line.split_whitespace();
     let (f, framing) = match tokens.next() {
@@ -123,6 +126,13 @@ fn parse_line(line: &str) -> Result<(Framing, Vec<Call>), String> {
         Some("R") => ('R', Framing::RtuResponse),
         other => return Err(format!("bad framing {other:?}")),
     };
+    let mut tokens = tokens.peekable();
+    START_TX.store(0, std::sync::atomic::Ordering::Relaxed);
+    if let Some(t) = tokens.peek().and_then(|t| t.strip_prefix("tx=")) {
+        let v: u16 = t.parse().map_err(|_| format!("bad tx= token {t:?}"))?;
+        START_TX.store(v as u32, std::sync::atomic::Ordering::Relaxed);
+        tokens.next();
+    }
     let mut calls = Vec::new();
     for tok in tokens {
         let (call, acts_str) = tok.split_once('@').ok_or_else(|| format!("{tok:?}: missing @<acts>"))?;
@@ -156,6 +166,7 @@ fn push(wire: &Wire, bytes: &[u8]) {
 
 async fn one(framing: Framing, calls: &[Call], decode: DecodeLevel) -> String {
     let (channel, mut session) = ClientSession::new(framing, 16, decode, None);
+    session.set_next_tx_id(START_TX.load(std::sync::atomic::Ordering::Relaxed) as u16);
     let wire = Wire::new();
     let io = wire.clone();
     let mut task = Some(tokio::spawn(async move { session.run(Box::new(io)).await }));
